@@ -10,6 +10,6 @@ for d in seeded/*/; do
   /venv/bin/python -c "import json,sys;sys.exit(0 if json.load(open('$d/meta.json')).get('obsolete') else 1)" && continue
   mkdir -p $S/$n; cp $d/patch.diff $d/demo.py $d/meta.json $S/$n/
   extra=$(/venv/bin/python -c "import json;m=json.load(open('$d/meta.json'));print(' '.join(c for c in m.get('checks',[])[1:]))")
-  echo "$S/$n $n $extra"
+  echo "$S/$n $n $extra" | sed "s/ *$//"
 done | xargs -P $P -L 1 sh -c 'tools/confirm_seeded.py "$@" > /var/tmp/vt/final_$2.log 2>&1' sh
 for f in /var/tmp/vt/final_*.log; do n=$(basename $f .log | sed s/final_//); echo "$n kept=$(grep -c '"kept": true' $f) $(grep "^C[0-9][0-9] {" $f | tr '\n' ' ' | cut -c1-220)"; done
